@@ -421,15 +421,22 @@ PickA(T) == CHOOSE v \in GoodValues(T) : TRUE
 PickB(T) == IF \E v \in GoodValues(T) : v # PickA(T) THEN CHOOSE v \in GoodValues(T) : v # PickA(T) ELSE PickA(T)
 CursorArgs(T, v) == {NoCursor, Of(v), Garbage(T), OtherType(T)}
 EdgeLists(T) == {<<>>, <<PickA(T)>>, <<PickB(T), PickA(T)>>, <<PickA(T), PickB(T), PickA(T)>>}
-Qw(T, a, b, f, l) == [kind |-> "qw", ty |-> T, after |-> a, before |-> b, first |-> f, last |-> l, edges |-> <<PickB(T), PickA(T)>>]
+\* nf: the Connection variant with (TRUE) or without (FALSE) the `nodes` field -- two implementations of pageInfo
+Qw(T, a, b, f, l) == [kind |-> "qw", ty |-> T, nf |-> TRUE, after |-> a, before |-> b, first |-> f, last |-> l, edges |-> <<PickB(T), PickA(T)>>]
 \* full product of the argument classes for the types in QwFull; for the types in QwLight every count pair with valid
 \* cursors and every cursor pair with two count pairs
 QwCases == UNION {{Qw(T, a, b, f, l) : a \in CursorArgs(T, PickA(T)), b \in CursorArgs(T, PickB(T)), f \in Counts, l \in Counts} : T \in QwFull}
            \cup UNION {{Qw(T, Of(PickA(T)), NoCursor, f, l) : f \in Counts, l \in Counts}
                        \cup {Qw(T, a, b, fl[1], fl[2]) : a \in CursorArgs(T, PickA(T)), b \in CursorArgs(T, PickB(T)),
                                                          fl \in {<<NoArg, NoArg>>, <<Arg(1), Arg(0)>>}} : T \in QwLight}
-           \cup UNION {{[kind |-> "qw", ty |-> T, after |-> Of(v), before |-> NoCursor, first |-> Arg(1), last |-> NoArg, edges |-> es] :
-                       v \in GoodValues(T), es \in EdgeLists(T)} : T \in Types}
+           \* every (non-lossy) sample value of every type as `after` cursor and as the only edge
+           \cup UNION {{[kind |-> "qw", ty |-> T, nf |-> TRUE, after |-> Of(v), before |-> NoCursor, first |-> Arg(1), last |-> NoArg, edges |-> <<v>>] :
+                       v \in GoodValues(T)} : T \in Types}
+           \* 0-3 edges, both Connection variants, every type
+           \cup UNION {{[kind |-> "qw", ty |-> T, nf |-> nf, after |-> NoCursor, before |-> Of(PickA(T)), first |-> NoArg, last |-> Arg(2), edges |-> es] :
+                       es \in EdgeLists(T), nf \in BOOLEAN} : T \in Types}
+           \cup UNION {{[kind |-> "qw", ty |-> T, nf |-> FALSE, after |-> a, before |-> NoCursor, first |-> f, last |-> NoArg, edges |-> <<PickA(T)>>] :
+                       a \in CursorArgs(T, PickA(T)), f \in {NoArg, Arg(-1), Arg(0)}} : T \in QwFull \cup QwLight}
 RtCases  == UNION {{[kind |-> "rt", ty |-> T, x |-> v] : v \in Samples(T)} : T \in Types}
 DecCases == UNION {{[kind |-> "dec", ty |-> T, s |-> s] : s \in Strings(T)} : T \in Types}
 ShapeCases == {[kind |-> "shape", ty |-> T] : T \in OpaqueTypes}
